@@ -41,9 +41,11 @@ import (
 	discovery "github.com/envoyproxy/go-control-plane/envoy/service/discovery/v3"
 	"google.golang.org/grpc/metadata"
 	"google.golang.org/protobuf/proto"
+	"google.golang.org/protobuf/types/known/durationpb"
 	"google.golang.org/protobuf/types/known/structpb"
 	metav1 "k8s.io/apimachinery/pkg/apis/meta/v1"
 
+	meshconfig "istio.io/api/mesh/v1alpha1"
 	networking "istio.io/api/networking/v1alpha3"
 	securityv1 "istio.io/api/security/v1beta1"
 	"istio.io/istio/pilot/pkg/model"
@@ -51,6 +53,7 @@ import (
 	v3 "istio.io/istio/pilot/pkg/xds/v3"
 	"istio.io/istio/pilot/test/xdstest"
 	"istio.io/istio/pkg/config"
+	"istio.io/istio/pkg/config/mesh/meshwatcher"
 	"istio.io/istio/pkg/config/schema/gvk"
 	"istio.io/istio/pkg/config/schema/kind"
 	"istio.io/istio/pkg/util/sets"
@@ -78,6 +81,11 @@ func (s *sinkDeltaStream) Recv() (*discovery.DeltaDiscoveryRequest, error) {
 	return nil, errors.New("eof")
 }
 
+type savedShard struct {
+	key model.ShardKey
+	eps []*model.IstioEndpoint
+}
+
 type wconn struct {
 	attrs pattrs
 	p     *model.Proxy
@@ -90,18 +98,26 @@ type wconn struct {
 
 type writersWorld struct {
 	*keysWorld
-	conns   map[string]*wconn
-	deleted map[string]config.Config // configs currently removed by `toggle`
-	nreader int
+	conns          map[string]*wconn
+	deleted        map[string]config.Config // configs currently removed by `toggle`
+	pendingForced  bool
+	forcedUnpushed bool
+	pendingEp      []model.ConfigKey     // endpoint ops whose ConfigUpdate (DiscoveryServer.EDSUpdate's second half) is still to come
+	unpushed       []model.ConfigKey     // changes accepted by the server whose push requests the connections have not got yet
+	savedEps       map[string]savedShard // endpoint ops: the shard key and endpoints a service had when first touched
+	meshN          int
+	nreader        int
 }
 
 func newWritersWorld(variant int) *writersWorld {
-	return &writersWorld{keysWorld: newKeysWorld(variant), conns: map[string]*wconn{}, deleted: map[string]config.Config{}}
+	return &writersWorld{keysWorld: newKeysWorld(variant), conns: map[string]*wconn{}, deleted: map[string]config.Config{},
+		savedEps: map[string]savedShard{}}
 }
 
 var shortType = map[string]string{"cds": v3.ClusterType, "eds": v3.EndpointType, "rds": v3.RouteType, "sds": v3.SecretType}
 
-var sdsNames = []string{"kubernetes://tls-a", "kubernetes://tls-a-cacert", "kubernetes://ns-b/tls-a", "kubernetes://default/tls-a", "kubernetes://missing"}
+var sdsNames = []string{"kubernetes://tls-a", "kubernetes://tls-a-cacert", "kubernetes://ns-b/tls-a", "kubernetes://default/tls-a", "kubernetes://missing",
+	"kubernetes://tls-b", "kubernetes://tls-b-cacert"}
 
 func (w *keysWorld) resourceNames(p *model.Proxy, typ string) []string {
 	switch typ {
@@ -126,7 +142,12 @@ var cfgHome = map[string]struct {
 	"sc-b": {gvk.Sidecar, "ns-b"}, "sc-reg": {gvk.Sidecar, "default"}, "sc-labelled": {gvk.Sidecar, "default"},
 	"ef-labels": {gvk.EnvoyFilter, "default"}, "ef-version": {gvk.EnvoyFilter, "istio-system"},
 	"se-a": {gvk.ServiceEntry, "default"}, "se-b": {gvk.ServiceEntry, "ns-b"}, "se-c": {gvk.ServiceEntry, "default"},
+	"se-dns":     {gvk.ServiceEntry, "default"},
 	"pa-default": {gvk.PeerAuthentication, "istio-system"}, "pa-nsb": {gvk.PeerAuthentication, "ns-b"},
+}
+
+var secretTargets = map[string][2]string{
+	"secret": {"default", "tls-a"}, "secret-b": {"default", "tls-b"}, "secret-nsb": {"ns-b", "tls-a"}, "secret-cacert": {"default", "tls-a-cacert"},
 }
 
 func cfgName(which string) string {
@@ -144,19 +165,20 @@ func kindOf(g config.GroupVersionKind) kind.Kind { return kind.FromString(g.Kind
 // changeConfig rewrites one knob of a config of the mesh. ok=false: the world does not have it (any more).
 func (w *writersWorld) changeConfig(which string, n int) (model.ConfigKey, bool) {
 	store := w.s.Store()
-	if which == "secret" {
+	if sec, ok := secretTargets[which]; ok {
 		cl := w.sdsClients["Kubernetes"]
-		sec, err := cl.Kube().CoreV1().Secrets("default").Get(context.Background(), "tls-a", metav1.GetOptions{})
+		cur, err := cl.Kube().CoreV1().Secrets(sec[0]).Get(context.Background(), sec[1], metav1.GetOptions{})
 		if err != nil {
 			panic(err)
 		}
-		sec = sec.DeepCopy()
-		sec.Data["tls.crt"] = []byte(fmt.Sprintf("cert-default-%d", n))
-		sec.Data["tls.key"] = []byte(fmt.Sprintf("key-default-%d", n))
-		if _, err := cl.Kube().CoreV1().Secrets("default").Update(context.Background(), sec, metav1.UpdateOptions{}); err != nil {
+		cur = cur.DeepCopy()
+		for k := range cur.Data { // every field, including ca.crt / cacert (the compound `-cacert` relation)
+			cur.Data[k] = []byte(fmt.Sprintf("%s-%s-%s-%d", k, sec[0], sec[1], n))
+		}
+		if _, err := cl.Kube().CoreV1().Secrets(sec[0]).Update(context.Background(), cur, metav1.UpdateOptions{}); err != nil {
 			panic(err)
 		}
-		return model.ConfigKey{Kind: kind.Secret, Name: "tls-a", Namespace: "default"}, true
+		return model.ConfigKey{Kind: kind.Secret, Name: sec[1], Namespace: sec[0]}, true
 	}
 	base := which
 	switch which {
@@ -164,6 +186,8 @@ func (w *writersWorld) changeConfig(which string, n int) (model.ConfigKey, bool)
 		base = "se-a"
 	case "se-c-addr":
 		base = "se-c"
+	case "se-dns-ep", "se-dns-res", "se-dns-san":
+		base = "se-dns"
 	case "se-b-ep":
 		base = "se-b"
 	}
@@ -195,6 +219,16 @@ func (w *writersWorld) changeConfig(which string, n int) (model.ConfigKey, bool)
 			} else {
 				spec.Ports = append(spec.Ports, &networking.ServicePort{Number: 9100, Name: "http-extra", Protocol: "HTTP"})
 			}
+		case "se-dns-ep": // the endpoints of a DNS service are part of its CDS cluster
+			spec.Endpoints[0].Address = fmt.Sprintf("host%d.example.net", n)
+		case "se-dns-res":
+			if spec.Resolution == networking.ServiceEntry_DNS {
+				spec.Resolution = networking.ServiceEntry_DNS_ROUND_ROBIN
+			} else {
+				spec.Resolution = networking.ServiceEntry_DNS
+			}
+		case "se-dns-san":
+			spec.SubjectAltNames = []string{fmt.Sprintf("spiffe://cluster.local/ns/default/sa/dns%d", n)}
 		case "se-a-addr", "se-c-addr":
 			// the VIP of the service: it becomes a virtual host domain and a listener address, the host stays
 			spec.Addresses = []string{fmt.Sprintf("10.60.%d.%d", (n/200)%200, 1+n%200)}
@@ -255,9 +289,15 @@ func (w *writersWorld) toggleConfig(which string) (model.ConfigKey, bool) {
 }
 
 // settle waits until the server's own (asynchronous) handler/debounce/push pipeline has seen the event and has
-// published it, and stays quiet - otherwise its push would race with the following ops - and then runs the real
-// Push once more for the key, which gives the request a push-queue worker would later hand to pushConnection.
+// published it, and stays quiet - otherwise its push would race with the following ops.
 func (w *writersWorld) settle(before int64, key model.ConfigKey) {
+	w.waitQuiet(before)
+	// The change has now been invalidated and published by the server's OWN pipeline only (ConfigsUpdated as computed by
+	// the real handlers and merged by the real debounce): a `check` right after this op validates exactly that.
+	w.unpushed = append(w.unpushed, key)
+}
+
+func (w *writersWorld) waitQuiet(before int64) {
 	s := w.s
 	deadline := time.Now().Add(5 * time.Second)
 	for s.Discovery.InboundUpdates.Load() == before && time.Now().Before(deadline) {
@@ -275,10 +315,44 @@ func (w *writersWorld) settle(before int64, key model.ConfigKey) {
 			break
 		}
 	}
-	req := &model.PushRequest{ConfigsUpdated: sets.New(key), Reason: model.NewReasonStats(model.ConfigUpdate)}
-	s.Discovery.Push(req) // real initPushContext (new context, Clear, publish) + StartPush (stamps Start)
-	// StartPush enqueues the request for every connection; the push queue merges it into what is still pending
-	// for that connection (real PushRequest.CopyMerge, as PushQueue.Enqueue does)
+}
+
+// flushEp issues the ConfigUpdate the registries send after an endpoint index update (as DiscoveryServer.EDSUpdate does)
+// for every endpoint op since the last call, through the real ConfigUpdate -> debounce -> Push, and waits for it.
+func (w *writersWorld) flushEp() {
+	if len(w.pendingEp) == 0 {
+		return
+	}
+	keys := w.pendingEp
+	w.pendingEp = nil
+	before := w.s.Discovery.InboundUpdates.Load()
+	if w.pendingForced {
+		w.pendingForced = false
+		w.s.Discovery.ConfigUpdate(&model.PushRequest{Reason: model.NewReasonStats(model.ClusterUpdate), Forced: true})
+		w.waitQuiet(before)
+		w.forcedUnpushed = true
+		return
+	}
+	w.s.Discovery.ConfigUpdate(&model.PushRequest{ConfigsUpdated: sets.New(keys...), Reason: model.NewReasonStats(model.EndpointUpdate)})
+	w.waitQuiet(before)
+	w.unpushed = append(w.unpushed, keys...)
+}
+
+// flushPushes gives the connections the push requests for the changes accepted since the last call: the real Push runs
+// once more for their keys (initPushContext + StartPush stamp the request; the server's own requests went to its empty
+// client list and cannot be observed), and the request is merged into what is pending for every connection (real
+// PushRequest.CopyMerge, as PushQueue.Enqueue does).
+func (w *writersWorld) flushPushes() {
+	if len(w.unpushed) == 0 && !w.forcedUnpushed {
+		return
+	}
+	req := &model.PushRequest{ConfigsUpdated: sets.New(w.unpushed...), Reason: model.NewReasonStats(model.ConfigUpdate), Forced: w.forcedUnpushed}
+	w.unpushed, w.forcedUnpushed = nil, false
+	w.pushReq(req)
+}
+
+func (w *writersWorld) pushReq(req *model.PushRequest) {
+	w.s.Discovery.Push(req) // real initPushContext (new context, dropCacheForRequest, publish) + StartPush (stamps Start)
 	for _, c := range w.conns {
 		c.pending = c.pending.CopyMerge(req)
 	}
@@ -286,20 +360,21 @@ func (w *writersWorld) settle(before int64, key model.ConfigKey) {
 
 var epServices = map[string][2]string{
 	"a": {"a.example.com", "default"}, "b": {"b.example.com", "ns-b"}, "hb": {"hb.example.com", "default"},
-	"nl": {"nl.default.svc.cluster.local", "default"},
+	"nl": {"nl.default.svc.cluster.local", "default"}, "dns": {"dns.example.com", "default"},
 }
 
-// epUpdate calls the real EndpointIndex.UpdateServiceEndpoints (what every registry's EDSUpdate does first)
-// with one address of one shard changed; no push follows.
-func (w *writersWorld) epUpdate(svc string, n int) bool {
-	hn, ok := epServices[svc]
+// shardOf finds (and remembers) the first shard of a service with its endpoints as the registries filled it.
+func (w *writersWorld) shardOf(svc string) (hn [2]string, sh savedShard, ok bool) {
+	hn, ok = epServices[svc]
 	if !ok {
-		return false
+		return hn, sh, false
 	}
-	idx := w.s.Discovery.Env.EndpointIndex
-	shards, ok := idx.ShardsForService(hn[0], hn[1])
-	if !ok {
-		return false
+	if sh, ok = w.savedEps[svc]; ok {
+		return hn, sh, true
+	}
+	shards, found := w.s.Discovery.Env.EndpointIndex.ShardsForService(hn[0], hn[1])
+	if !found {
+		return hn, sh, false
 	}
 	shards.RLock()
 	var keys []model.ShardKey
@@ -307,19 +382,96 @@ func (w *writersWorld) epUpdate(svc string, n int) bool {
 		keys = append(keys, k)
 	}
 	sort.Slice(keys, func(i, j int) bool { return keys[i].String() < keys[j].String() })
-	var eps []*model.IstioEndpoint
 	if len(keys) > 0 {
+		sh.key = keys[0]
 		for _, e := range shards.Shards[keys[0]] {
-			eps = append(eps, e.DeepCopy())
+			sh.eps = append(sh.eps, e.DeepCopy())
 		}
 	}
 	shards.RUnlock()
-	if len(eps) == 0 {
-		return false
+	if len(sh.eps) == 0 {
+		return hn, sh, false
 	}
-	eps[0].Addresses = []string{fmt.Sprintf("10.251.%d.%d", (n/200)%200, 1+n%200)}
-	idx.UpdateServiceEndpoints(keys[0], hn[0], hn[1], eps, false)
-	return true
+	w.savedEps[svc] = sh
+	return hn, sh, true
+}
+
+// epOp calls the real EndpointIndex entry points the registries use, with NO push afterwards (the window between an
+// endpoint event and the push it triggers; only the index's own cache invalidation protects it):
+//
+//	epupdate <svc> <n>  UpdateServiceEndpoints with one address changed; n%4==0: with NO endpoints (-> DeleteServiceShard
+//	                    preserving the keys -> deleteServiceInner)
+//	epdelete <svc>      DeleteServiceShard(.., preserveKeys=false) (service deleted)
+//	epnew <svc> <n>     UpdateServiceEndpoints after a delete: GetOrCreateEndpointShard creates the shards again
+//	epdelshard <svc>    DeleteShard(shard key): a whole registry/cluster goes away (ClearAll)
+func (w *writersWorld) epOp(op, svc string, n int) {
+	hn, sh, ok := w.shardOf(svc)
+	if !ok {
+		return
+	}
+	idx := w.s.Discovery.Env.EndpointIndex
+	// the registry's ConfigUpdate for this service follows the index update; the harness delays it to the next
+	// config-changing or push op (flushEp), so that a `check` in between sees the window
+	w.pendingEp = append(w.pendingEp, model.ConfigKey{Kind: kind.ServiceEntry, Name: hn[0], Namespace: hn[1]})
+	fresh := func() []*model.IstioEndpoint {
+		var eps []*model.IstioEndpoint
+		for _, e := range sh.eps {
+			eps = append(eps, e.DeepCopy())
+		}
+		eps[0].Addresses = []string{fmt.Sprintf("10.251.%d.%d", (n/200)%200, 1+n%200)}
+		return eps
+	}
+	switch op {
+	case "epupdate":
+		if n%4 == 0 {
+			idx.UpdateServiceEndpoints(sh.key, hn[0], hn[1], nil, false)
+		} else {
+			idx.UpdateServiceEndpoints(sh.key, hn[0], hn[1], fresh(), false)
+		}
+	case "epdelete":
+		idx.DeleteServiceShard(sh.key, hn[0], hn[1], false)
+	case "epnew":
+		idx.UpdateServiceEndpoints(sh.key, hn[0], hn[1], fresh(), false)
+	case "epdelshard":
+		// a registry (cluster) is removed: kube multicluster calls DeleteShard and then a FORCED ConfigUpdate
+		idx.DeleteShard(sh.key)
+		w.pendingForced = true
+	}
+}
+
+// meshChange: the mesh config changes (connect timeout of every cluster) together with a DestinationRule, and the
+// debounce hands ONE merged request to Push - Forced (from the mesh handler, bootstrap.initMeshHandlers) with a
+// non-empty ConfigsUpdated (from the config handler). Built with the real CopyMerge from the two requests those
+// handlers create. dropCacheForRequest must ClearAll.
+func (w *writersWorld) meshChange(n int, alone bool) {
+	w.meshN = n
+	tw, ok := w.s.Env().Watcher.(meshwatcher.TestWatcher)
+	if !ok {
+		return
+	}
+	m := proto.Clone(w.s.Env().Mesh()).(*meshconfig.MeshConfig)
+	m.ConnectTimeout = durationpb.New(time.Duration(11+n%40) * time.Second)
+	tw.Set(m)
+	for i := 0; i < 2000 && w.s.Env().Mesh().GetConnectTimeout().GetSeconds() != int64(11+n%40); i++ {
+		time.Sleep(100 * time.Microsecond)
+	}
+	forced := &model.PushRequest{Reason: model.NewReasonStats(model.GlobalUpdate), Forced: true}
+	if alone {
+		w.pushReq(forced)
+		return
+	}
+	before := w.s.Discovery.InboundUpdates.Load()
+	key, ok := w.changeConfig("dr-b", n)
+	if !ok {
+		key, ok = w.changeConfig("dr-a", n)
+	}
+	if !ok {
+		w.pushReq(forced)
+		return
+	}
+	w.settle(before, key)
+	w.unpushed = w.unpushed[:len(w.unpushed)-1]
+	w.pushReq(forced.CopyMerge(&model.PushRequest{ConfigsUpdated: sets.New(key), Reason: model.NewReasonStats(model.ConfigUpdate)}))
 }
 
 func (w *writersWorld) apply(f []string) string {
@@ -386,6 +538,7 @@ func (w *writersWorld) apply(f []string) string {
 		}
 		return "ok"
 	case f[0] == "change" && len(f) == 3:
+		w.flushEp()
 		n, _ := strconv.Atoi(f[2])
 		before := s.Discovery.InboundUpdates.Load()
 		key, ok := w.changeConfig(f[1], n)
@@ -395,6 +548,7 @@ func (w *writersWorld) apply(f []string) string {
 		w.settle(before, key)
 		return "ok"
 	case f[0] == "toggle" && len(f) == 2:
+		w.flushEp()
 		before := s.Discovery.InboundUpdates.Load()
 		key, ok := w.toggleConfig(f[1])
 		if !ok {
@@ -402,15 +556,30 @@ func (w *writersWorld) apply(f []string) string {
 		}
 		w.settle(before, key)
 		return "ok"
-	case f[0] == "epupdate" && len(f) == 3:
+	case (f[0] == "epupdate" || f[0] == "epnew") && len(f) == 3:
 		n, _ := strconv.Atoi(f[2])
-		w.epUpdate(f[1], n)
+		w.epOp(f[0], f[1], n)
+		return "ok"
+	case (f[0] == "epdelete" || f[0] == "epdelshard") && len(f) == 2:
+		w.epOp(f[0], f[1], 0)
+		return "ok"
+	case f[0] == "meshchange" && len(f) == 2:
+		w.flushEp()
+		n, _ := strconv.Atoi(f[1])
+		w.meshChange(n, false)
+		return "ok"
+	case f[0] == "forcepush" && len(f) == 2:
+		w.flushEp()
+		n, _ := strconv.Atoi(f[1])
+		w.meshChange(n, true)
 		return "ok"
 	case f[0] == "push" && len(f) == 2:
 		c := w.conns[f[1]]
 		if c == nil {
 			return "bad-op"
 		}
+		w.flushEp()
+		w.flushPushes()
 		req := c.pending
 		c.pending = nil
 		if req == nil {
@@ -449,12 +618,19 @@ func (w *writersWorld) apply(f []string) string {
 		}
 		w.nreader++
 		reader := w.proxy(c.attrs, fmt.Sprintf("reader%d", w.nreader))
-		k0 := len(s.Discovery.Cache.Keys(model.RDSType))
-		warm := w.generateWith(w.gens, reader)
-		if os.Getenv("C06_DEBUG") != "" {
-			fmt.Fprintln(os.Stderr, "check: rds keys before", k0, "after", len(s.Discovery.Cache.Keys(model.RDSType)))
+		// Both generations must see ONE snapshot: if the server's asynchronous pipeline publishes a new push context
+		// (a late event of an earlier change) while they run, wait for it to settle and compare again.
+		var warm, cold map[string]proto.Message
+		for try := 0; try < 6; try++ {
+			ctx0, in0 := s.PushContext(), s.Discovery.InboundUpdates.Load()
+			reader = w.proxy(c.attrs, fmt.Sprintf("reader%d.%d", w.nreader, try))
+			warm = w.generateWith(w.gens, reader)
+			cold = w.generateWith(w.twins, reader)
+			if s.PushContext() == ctx0 && s.Discovery.InboundUpdates.Load() == in0 && s.Discovery.CommittedUpdates.Load() >= in0 {
+				break
+			}
+			w.waitQuiet(in0 - 1)
 		}
-		cold := w.generateWith(w.twins, reader)
 		if os.Getenv("C06_DEBUG") != "" {
 			n := "cds/outbound|80||a.example.com"
 			fmt.Fprintln(os.Stderr, "check warm:", protoField(warm[n]), "cold:", protoField(cold[n]))
@@ -471,6 +647,7 @@ func (w *writersWorld) apply(f []string) string {
 }
 
 var changeable = []string{"dr-a", "dr-b", "dr-a-nsb", "dr-sel", "vs-a", "vs-b", "vs-c-src", "se-a-ep", "se-b-ep", "se-a-port", "se-a-addr", "se-c-addr",
+	"se-dns-ep", "se-dns-res", "se-dns-san", "secret-b", "secret-nsb", "secret-cacert",
 	"ef-labels", "ef-version", "pa-default", "pa-nsb", "secret"}
 var toggleable = []string{"dr-a", "dr-b", "dr-sel", "vs-a", "vs-c-src", "sc-b", "sc-reg", "ef-labels", "ef-version", "pa-nsb"}
 
@@ -481,7 +658,16 @@ func genWriters(seed uint64, n int, path string) {
 	for c := 0; c < n; c++ {
 		world := 0
 		if c > 0 && r.Chance(1, 2) {
-			world = (r.Intn(1<<keysWorldBits) & r.Intn(1<<keysWorldBits)) &^ 256
+			world = (r.Intn(1<<keysWorldBits) & r.Intn(1<<keysWorldBits)) &^ (256 | 1<<9 | 1<<10 | 1<<13)
+			if r.Chance(1, 5) {
+				world |= 1 << 9
+			}
+			if r.Chance(1, 8) {
+				world |= 1 << 10
+			}
+			if r.Chance(1, 6) {
+				world |= 1 << 13
+			}
 		}
 		out.Line("case", strconv.Itoa(c), strconv.Itoa(world))
 		ids := []string{"x", "y", "z"}[:1+r.Intn(3)]
@@ -499,14 +685,36 @@ func genWriters(seed uint64, n int, path string) {
 			switch x := r.Intn(100); {
 			case x < 22:
 				out.Line("request", id, wire.Pick(r, []string{"cds", "eds", "rds", "sds"}))
-			case x < 40:
+			case x < 38:
 				ver++
 				out.Line("change", wire.Pick(r, changeable), strconv.Itoa(ver))
-			case x < 46:
+				if r.Chance(3, 5) { // the server's own invalidation, before any harness push
+					out.Line("check", id)
+				}
+			case x < 43:
 				out.Line("toggle", wire.Pick(r, toggleable))
-			case x < 52:
+				if r.Chance(3, 5) {
+					out.Line("check", id)
+				}
+			case x < 46:
 				ver++
-				out.Line("epupdate", wire.Pick(r, []string{"a", "b", "hb", "nl"}), strconv.Itoa(ver))
+				out.Line(wire.Pick(r, []string{"meshchange", "meshchange", "forcepush"}), strconv.Itoa(ver))
+			case x < 54:
+				ver++
+				svc := wire.Pick(r, []string{"a", "b", "hb", "nl", "dns"})
+				switch y := r.Intn(10); {
+				case y < 5:
+					out.Line("epupdate", svc, strconv.Itoa(ver))
+				case y < 7:
+					out.Line("epdelete", svc)
+				case y < 9:
+					out.Line("epnew", svc, strconv.Itoa(ver))
+				default:
+					out.Line("epdelshard", svc)
+				}
+				if r.Chance(1, 2) {
+					out.Line("check", id)
+				}
 			case x < 62:
 				out.Line("push", id)
 			case x < 70:
@@ -622,7 +830,7 @@ func oracleWriters(opsPath, outPath string) {
 func lastWriter(hist []string) string {
 	for i := len(hist) - 1; i >= 0; i-- {
 		switch hist[i] {
-		case "dump", "dumptypes", "request", "push", "epupdate", "change", "toggle":
+		case "dump", "dumptypes", "request", "push", "epupdate", "epdelete", "epnew", "epdelshard", "change", "toggle", "meshchange", "forcepush":
 			return hist[i]
 		}
 	}
